@@ -185,11 +185,13 @@ class FitResult(HoloPyObject):
             codes = [[level.index(f) for f in flat]
                      for level, flat in zip(levels, flats)]
             flat_index = pd.MultiIndex(levels, codes, names=['x', 'y', 'z'])
-            coordnames = list(data.coords)
-            coordnames.remove('point')
-            coords = {coord: data[coord] for coord in coordnames}
+            # (the axes are the array's dimensions; it may carry further
+            # coordinates -- the time of a frame, the label of one channel)
+            dims = ['flat' if dim == 'point' else dim for dim in data.dims]
+            coords = {coord: data[coord] for coord in data.coords
+                      if coord != 'point'}
             coords['flat'] = flat_index
-            data = xr.DataArray(data.values, dims=coordnames + ['flat'],
+            data = xr.DataArray(data.values, dims=dims,
                                 coords=coords, attrs=data.attrs,
                                 name=data.name)
         model = yaml.load(dataset.attrs['model'], Loader=FullLoader)
